@@ -5,6 +5,7 @@ mod alloc;
 mod conv;
 mod core;
 mod net;
+mod nodeenv;
 mod peer;
 mod runner;
 mod scen;
